@@ -8,7 +8,8 @@ CLAIMS = {
         'wires it (handlers -> snapshot tee -> internal-query filter -> user coalescer -> member coalescer -> application) with every '
         'interleaving of the stage goroutines and flush points, with and without coalescing. TLC-simulated membership histories (the input '
         'sequences of SerfReplica, with seeded pauses of 0/8/70 ms around the 40/20 ms coalescing quantum) are run on a real Serf node with '
-        'snapshot, internal-query filter and both coalescers enabled; the emitted sequence is taken from the INFO lines serf logs synchronously '
+        'snapshot, internal-query filter and both coalescers enabled, and again without coalescing against a stalled application (channel of '
+        'capacity 1 read only when the history is over, so every stage is backed up); the emitted sequence is taken from the INFO lines serf logs synchronously '
         'inside its handlers, the received one from the application channel, and TLC judges both histories with the same monitor.',
         'Goroutine scheduling of the real pipeline is sampled (the exhaustive part is the model). The final-status clause is judged after the '
         'application channel was silent for ten coalescing periods. No stage of the pipeline drops events towards the application.',
@@ -25,11 +26,11 @@ import vlib
 from families import replica
 
 
-def execute(ctx, binary, nn, scheds, tag):
+def execute(ctx, binary, nn, scheds, tag, slow=False):
     sp = os.path.join(ctx.scratch, "psched-%s.ndjson" % tag)
     tp = os.path.join(ctx.scratch, "ptrace-%s.ndjson" % tag)
     vlib.write_schedules(sp, scheds)
-    rc, out = vlib.run_driver(ctx, binary, ["-in", sp, "-out", tp, "-nn", str(nn), "-pipeline", "-dir", ctx.scratch], timeout=3000)
+    rc, out = vlib.run_driver(ctx, binary, ["-in", sp, "-out", tp, "-nn", str(nn), "-pipeline", "-dir", ctx.scratch] + (["-slow"] if slow else []), timeout=3000)
     if rc != 0:
         raise vlib.Inconclusive("pipeline driver failed rc=%d:\n%s" % (rc, out[-3000:]))
     return tp
@@ -54,29 +55,43 @@ def run(ctx, replay=None):
         for s in scheds:
             for st in s:
                 st["p"] = rng.choice([0, 0, 0, 8, 8, 70])
-    tcfg = "SPECIFICATION TraceSpec\nINVARIANT Done\nCONSTANT NM = %d\nCONSTANT MaxEmit = 100000\nCONSTANT Coalescing = TRUE\n" % (nn - 1)
-    tp = execute(ctx, binary, nn, scheds, "a")
-    rep = vlib.validate(ctx, "Trace_EventPipeline", tcfg, tp, timeout=3000)
     viol, seen = [], {}
-    for (tid, line, clauses, tags) in rep.monitors:
-        key = ",".join(sorted(clauses))
-        if seen.get(key, 0) >= 2:
-            continue
-        seen[key] = seen.get(key, 0) + 1
-        t2 = execute(ctx, binary, nn, [scheds[tid]], "re%d" % tid)
-        rep2 = vlib.validate(ctx, "Trace_EventPipeline", tcfg, t2)
-        again = sorted(set(c for m in rep2.monitors for c in m[2] if c in clauses))
-        if again:
-            viol.append({"clauses": again, "tags": [], "schedule": scheds[tid]})
-        else:
-            ctx.log("report %s on trace %d not reproduced; ignored" % (clauses, tid))
+    traces = lines_n = 0
+    all_lines = []
+    # two ways of running the same histories: (a) coalescers on, application reading all the time, seeded pauses;
+    # (b) no coalescing and an application channel of capacity 1 that nobody reads until the history is over (a stalled
+    # consumer: every stage of the pipeline is backed up and must still hand the events on in order)
+    modes = [("a", False, scheds, True)]
+    if not replay or json.load(open(replay)).get("slow"):
+        sub = scheds if replay else scheds[:(200 if ctx.thorough() else 45)]
+        modes = ([] if replay else modes) + [("s", True, sub, False)]
+    for tag, slow, ss, coal in modes:
+        tcfg = ("SPECIFICATION TraceSpec\nINVARIANT Done\nCONSTANT NM = %d\nCONSTANT MaxEmit = 100000\nCONSTANT Coalescing = %s\n"
+                % (nn - 1, "TRUE" if coal else "FALSE"))
+        tp = execute(ctx, binary, nn, ss, tag, slow=slow)
+        rep = vlib.validate(ctx, "Trace_EventPipeline", tcfg, tp, timeout=3000)
+        traces += rep.traces
+        lines_n += rep.lines
+        all_lines += vlib.read_ndjson(tp)
+        for (tid, line, clauses, tags) in rep.monitors:
+            key = tag + ",".join(sorted(clauses))
+            if seen.get(key, 0) >= 2:
+                continue
+            seen[key] = seen.get(key, 0) + 1
+            t2 = execute(ctx, binary, nn, [ss[tid]], "re%s%d" % (tag, tid), slow=slow)
+            rep2 = vlib.validate(ctx, "Trace_EventPipeline", tcfg, t2)
+            again = sorted(set(c for m in rep2.monitors for c in m[2] if c in clauses))
+            if again:
+                viol.append({"clauses": again, "tags": [], "schedule": ss[tid], "slow": slow})
+            else:
+                ctx.log("report %s on trace %s%d not reproduced; ignored" % (clauses, tag, tid))
     new, known = vlib.classify(ctx.prop, viol)
-    lines = vlib.read_ndjson(tp)
+    lines = all_lines
     nem = sum(len(l["obs"]["em"]) for l in lines if l["act"]["a"] != "reset")
     nrc = sum(len(l["obs"]["rc"]) for l in lines if l["act"]["a"] != "reset")
     cov = {"states": sum(r.distinct for r in mcs) or 1, "transitions": sum(r.generated for r in mcs) or 1, "exhaustive": bool(mcs),
            "model_constants": "2 members, <= 3 (thorough 4) emitted events, all stage interleavings and flush points, coalescing on and off",
-           "traces_validated_against_impl": rep.traces, "trace_lines": rep.lines,
+           "traces_validated_against_impl": traces, "trace_lines": lines_n,
            "evaluations": nem, "distinct_nontrivial": len(set(json.dumps(s) for s in scheds)),
            "events_emitted": nem, "events_received": nrc,
            "rule": "membership histories from TLC -simulate of SerfReplica with seeded pauses; evaluations = member events emitted by the real node "
